@@ -332,3 +332,4 @@ K('C06', 'mwem-rounds-from-data', [(MWEM, "    if rounds is None:\n        round
 T('C06', 'mst-noisy-helper', [(MST, "        y = x + np.random.normal(loc=0, scale=sigma/wgt, size=x.size)", "        noisy = lambda v, s: v + np.random.normal(loc=0, scale=s, size=v.size)\n        y = noisy(x, sigma/wgt)")])
 T('C06', 'aim-renamed-locals', [(AIM, "            x = data.project(cl).datavector()\n            y = x + self.gaussian_noise(sigma, n)\n            measurements.append((Q, y, sigma, cl))", "            truth = data.project(cl).datavector()\n            noisy = truth + self.gaussian_noise(sigma, n)\n            y = noisy\n            measurements.append((Q, y, sigma, cl))")])
 T('C06', 'mst-rng-alias', [(MST, "        y = x + np.random.normal(loc=0, scale=sigma/wgt, size=x.size)", "        rng = np.random\n        y = x + rng.normal(loc=0, scale=sigma/wgt, size=x.size)")])
+K('C18', 'rg-feasibility-relative', [(RG, "        return 0 if count==0 else ans/count", "        return 0 if count==0 else ans/(count*self.total)")], 'feasibility-form')
